@@ -13,7 +13,7 @@ import (
 func init() {
 	register(&propDef{
 		ID:       "C07",
-		Explain:  "Decided: (1) in Server.Subscribe, with an ACL configured a failing NewRPCACL makes every path return codes.Unauthenticated before any Recv/Send/go/registration/Insert, and otherwise the per-RPC ACL stored in the stream client is NewRPCACL's result; (2) for a single target, a false Check(target) makes every path return PermissionDenied with no goroutine, registration, Send or Insert, and every path that starts a goroutine passed the check; (3) who-may-send: every invoke of the stream's Send in package subscribe is either data-free (a package variable initialised to a sync_response and never reassigned) or guarded on every path by RPCACL.Check on the target of the very response being sent, using the RPC's own ACL; (4) the response wraps the cached notification or a proto.Clone of it (so its prefix cannot be lost), Cache.GnmiUpdate refuses a nil prefix and all cache-built notifications carry a prefix with the target; (5) streamClient.acl is written only in Subscribe. Round-3 addition: a response filtered by the ACL leaves the send timer disarmed (timer typestate borrowed from C08), so the idle stream is not ended by a timeout - 'everything for authorised targets is still delivered'. Round-4 addition: the all-targets snapshot walk never re-acquires Cache.mu (a wedged walk delivers nothing to authorised subscribers). Round-5 addition: the ACL is asked only about the subscription's own target under a dominating target != \"*\" edge (in the function or at every call site of the helper holding the call) or about the target of a message being delivered; a verdict on anything else (names enumerated when the RPC starts, the wildcard itself) withholds data from authorised callers.",
+		Explain:  "Decided: (1) in Server.Subscribe, with an ACL configured a failing NewRPCACL makes every path return codes.Unauthenticated before any Recv/Send/go/registration/Insert, and otherwise the per-RPC ACL stored in the stream client is NewRPCACL's result; (2) for a single target, a false Check(target) makes every path return PermissionDenied with no goroutine, registration, Send or Insert, and every path that starts a goroutine passed the check; (3) who-may-send: every invoke of the stream's Send in package subscribe is either data-free (a package variable initialised to a sync_response and never reassigned) or guarded on every path by RPCACL.Check on the target of the very response being sent, using the RPC's own ACL; (4) the response wraps the cached notification or a proto.Clone of it (so its prefix cannot be lost), Cache.GnmiUpdate refuses a nil prefix and all cache-built notifications carry a prefix with the target; (5) streamClient.acl is written only in Subscribe. Round-3 addition: a response filtered by the ACL leaves the send timer disarmed (timer typestate borrowed from C08), so the idle stream is not ended by a timeout - 'everything for authorised targets is still delivered'. Round-4 addition: the all-targets snapshot walk never re-acquires Cache.mu (a wedged walk delivers nothing to authorised subscribers). Round-5 addition: the ACL is asked only about the subscription's own target under a dominating target != \"*\" edge (in the function or at every call site of the helper holding the call) or about the target of a message being delivered; a verdict on anything else (names enumerated when the RPC starts, the wildcard itself) withholds data from authorised callers. Round-7 addition: NewServer keeps what the Option functions configured (the options variable is not overwritten after an Option ran, is what Server.o is stored from, and only WithACL writes options.acl).",
 		NotCover: "liveness: that everything for authorised targets is still delivered; truthfulness of the ACL implementation; direct calls of the exported Target.GnmiUpdate with a nil prefix",
 		Run:      runC07,
 	})
@@ -258,19 +258,26 @@ func runC07(c *Ctx) {
 				if !isStreamInvoke(cc, "Send") && !isStreamInvoke(cc, "SendMsg") {
 					continue
 				}
-				nSend++
 				c.Sites++
 				c.Analysed(fnName(f))
 				arg := cc.Args[0]
 				key := "Send(" + Expr(arg) + ")"
 				if g := globalLoad(arg); g != nil {
+					nSend++
 					ok, why := syncOnlyGlobal(P, g)
 					c.Check(ok, "C07.send-guard", fnName(f), key, P.Pos(ci.Pos()), "data-free send: "+why)
 					continue
 				}
 				// judged from the function that owns the response: an unexported helper that only transmits
-				// its parameter is analysed inlined into each of its callers
+				// its parameter is analysed inlined into each of its callers (one shared "timed send" helper may
+				// carry both the sync response and the data responses: each use is a send of its own)
 				for _, rt := range sendRoots(P, f, unwrap(arg), 0) {
+					nSend++
+					if g := globalLoad(rt.sent); g != nil {
+						ok, why := syncOnlyGlobal(P, g)
+						c.Check(ok, "C07.send-guard", fnName(rt.fn), "Send("+Expr(rt.sent)+") through "+fnName(f), P.Pos(ci.Pos()), "data-free send: "+why)
+						continue
+					}
 					sendGuarded(c, rt.fn, ci, key, fSCacl, rt.sent)
 				}
 			}
@@ -278,6 +285,7 @@ func runC07(c *Ctx) {
 		c.Floor("C07.send-guard", nSend, 2)
 	}
 	respFaithful(c, "C07.resp-faithful")
+	optionsKept(c, "C07.options-kept")
 	// --- acl flow
 	{
 		n := 0
